@@ -34,7 +34,7 @@ import (
 //verif:override (github.com/cosmos/cosmos-sdk/x/authz/keeper.Keeper).GetAuthorization -> c04GetAuthorization
 //verif:override (github.com/cosmos/cosmos-sdk/x/authz/keeper.Keeper).SaveGrant -> c04SaveGrant
 //verif:override (github.com/cosmos/cosmos-sdk/x/authz/keeper.Keeper).DeleteGrant -> c04DeleteGrant
-//verif:override github.com/haqq-network/haqq/x/staking/keeper.NewMsgServerImpl -> c04NewMsgServer
+//verif:override github.com/haqq-network/haqq/x/staking/keeper.NewMsgServerImpl -> c04NewMsgServer except=VerifC08_PrecompileDelegate
 //verif:override (github.com/cosmos/cosmos-sdk/x/staking/keeper.Keeper).BondDenom -> c04BondDenom
 //verif:override (github.com/cosmos/cosmos-sdk/x/staking/keeper.Keeper).IterateValidators -> c04IterateValidators
 //verif:override (github.com/haqq-network/haqq/precompiles/staking.Precompile).EmitApprovalEvent -> c04EmitApproval
